@@ -22,12 +22,86 @@ func instrIndex(in ssa.Instruction) int {
 // reaches b (same function).
 func instrDominates(a, b ssa.Instruction) bool {
 	if a.Parent() != b.Parent() {
-		return false
+		return liftedDominates(a, b)
 	}
 	if a.Block() == b.Block() {
 		return instrIndex(a) <= instrIndex(b)
 	}
 	return a.Block().Dominates(b.Block())
+}
+
+// liftedDominates: a and b live in different functions related by calls of
+// helpers (deepview.go). a dominates b when, in every common enclosing
+// function through which b is reached, a representative of a dominates the
+// representative of b, and a is executed on every normal path through the
+// helpers between it and that representative.
+func liftedDominates(a, b ssa.Instruction) bool {
+	if curProg == nil {
+		return false
+	}
+	pairs := curProg.liftPairs(a, b)
+	if len(pairs) == 0 {
+		return false
+	}
+	// group by b's chain: each way of reaching b needs a dominating a
+	okFor := map[string]bool{}
+	keyOf := func(lc liftChain) string {
+		k := ""
+		for _, s := range lc.sites {
+			k += s.Parent().String() + "@" + s.Block().String() + "/" + itoa(instrIndex(s)) + ";"
+		}
+		return k
+	}
+	for _, pr := range pairs {
+		kb := keyOf(pr.cb)
+		if _, seen := okFor[kb]; !seen {
+			okFor[kb] = false
+		}
+		ra, rb := pr.ca.sites[pr.ia], pr.cb.sites[pr.ib]
+		if ra == rb {
+			continue
+		}
+		if !pr.ca.mustThrough(pr.ia) {
+			continue
+		}
+		if ra.Block() == rb.Block() && instrIndex(ra) < instrIndex(rb) || ra.Block() != rb.Block() && ra.Block().Dominates(rb.Block()) {
+			okFor[kb] = true
+		}
+	}
+	// only maximal chains of b matter (prefixes are partial views); accept when
+	// every maximal chain that has a common function with a is dominated
+	any := false
+	for _, cb := range curProg.chains(b) {
+		// maximal: its top function is not an inlinable helper with sites
+		top := cb.fn(len(cb.sites) - 1)
+		if curProg.inlinableHelper(top) && len(curProg.helperSites(top)) > 0 && len(cb.sites) <= maxHelperDepth {
+			continue
+		}
+		v, has := okFor[keyOf(cb)]
+		if !has {
+			continue
+		}
+		if !v {
+			return false
+		}
+		any = true
+	}
+	return any
+}
+
+func itoa(i int) string {
+	if i < 0 {
+		return "-"
+	}
+	if i == 0 {
+		return "0"
+	}
+	s := ""
+	for i > 0 {
+		s = string(rune('0'+i%10)) + s
+		i /= 10
+	}
+	return s
 }
 
 // isExit reports whether block b ends the function (return or panic).
@@ -60,7 +134,18 @@ type postDom struct {
 	toX []bool         // block can reach a return
 }
 
+var pdCache = map[*ssa.Function]*postDom{}
+
 func newPostDom(fn *ssa.Function) *postDom {
+	if pd, ok := pdCache[fn]; ok {
+		return pd
+	}
+	pd := buildPostDom(fn)
+	pdCache[fn] = pd
+	return pd
+}
+
+func buildPostDom(fn *ssa.Function) *postDom {
 	n := len(fn.Blocks)
 	p := &postDom{fn: fn, pd: make([]map[int]bool, n), toX: make([]bool, n)}
 	// blocks that can reach a return
@@ -150,6 +235,33 @@ func (p *postDom) blockPostDominates(a, b *ssa.BasicBlock) bool {
 // instrPostDominates: every path from b to a normal return executes a
 // (after b).
 func (p *postDom) instrPostDominates(a, b ssa.Instruction) bool {
+	if a.Parent() != p.fn || b.Parent() != p.fn {
+		if a.Parent() == b.Parent() {
+			return newPostDom(a.Parent()).instrPostDominates(a, b)
+		}
+		// lift both into p.fn
+		for _, ca := range curProg.chains(a) {
+			ia := len(ca.sites) - 1
+			if ca.fn(ia) != p.fn || !ca.mustThrough(ia) {
+				continue
+			}
+			okAll, anyB := true, false
+			for _, cb := range curProg.chains(b) {
+				ib := len(cb.sites) - 1
+				if cb.fn(ib) != p.fn {
+					continue
+				}
+				anyB = true
+				if ca.sites[ia] == cb.sites[ib] || !p.instrPostDominates(ca.sites[ia], cb.sites[ib]) {
+					okAll = false
+				}
+			}
+			if anyB && okAll {
+				return true
+			}
+		}
+		return false
+	}
 	if a.Block() == b.Block() {
 		return instrIndex(a) >= instrIndex(b)
 	}
@@ -159,11 +271,44 @@ func (p *postDom) instrPostDominates(a, b ssa.Instruction) bool {
 // onEveryReturnPath reports whether instruction a is executed on every path
 // from the function entry to a normal return.
 func (p *postDom) onEveryReturnPath(a ssa.Instruction) bool {
+	if a.Parent() != p.fn && curProg != nil {
+		for _, ca := range curProg.chains(a) {
+			ia := len(ca.sites) - 1
+			if ca.fn(ia) == p.fn && ca.mustThrough(ia) && p.onEveryReturnPathLocal(ca.sites[ia]) {
+				return true
+			}
+		}
+		return false
+	}
+	return p.onEveryReturnPathLocal(a)
+}
+
+func (p *postDom) onEveryReturnPathLocal(a ssa.Instruction) bool {
+	if a.Parent() != p.fn {
+		return false
+	}
 	return p.blockPostDominates(a.Block(), p.fn.Blocks[0])
 }
 
 // inLoop reports whether block b lies on a cycle of the CFG.
-func inLoop(b *ssa.BasicBlock) bool {
+func inLoop(b *ssa.BasicBlock) bool { return inLoopDepth(b, 0) }
+
+func inLoopDepth(b *ssa.BasicBlock, depth int) bool {
+	if inLoopLocal(b) {
+		return true
+	}
+	// a helper's block is in a loop when some call site of the helper is
+	if depth < maxHelperDepth && curProg != nil && curProg.inlinableHelper(b.Parent()) {
+		for _, s := range curProg.helperSites(b.Parent()) {
+			if s.Parent() != b.Parent() && inLoopDepth(s.Block(), depth+1) {
+				return true
+			}
+		}
+	}
+	return false
+}
+
+func inLoopLocal(b *ssa.BasicBlock) bool {
 	seen := map[*ssa.BasicBlock]bool{}
 	var stack []*ssa.BasicBlock
 	stack = append(stack, b.Succs...)
@@ -208,40 +353,99 @@ func reachableBlocks(b *ssa.BasicBlock, includeSelf bool) map[*ssa.BasicBlock]bo
 // which target() is true that is reachable that way, or nil.
 func pathSearch(fn *ssa.Function, start ssa.Instruction, target, block func(ssa.Instruction) bool) ssa.Instruction {
 	type pos struct {
-		b *ssa.BasicBlock
-		i int
+		b     *ssa.BasicBlock
+		i     int
+		stack string            // rendered call stack (for the visited set)
+		rets  []ssa.Instruction // call instructions to return to (innermost last)
+	}
+	render := func(rets []ssa.Instruction) string {
+		s := ""
+		for _, r := range rets {
+			s += r.Parent().String() + ":" + r.Block().String() + "/" + itoa(instrIndex(r)) + ";"
+		}
+		return s
 	}
 	var work []pos
 	if start == nil {
 		if len(fn.Blocks) == 0 {
 			return nil
 		}
-		work = append(work, pos{fn.Blocks[0], 0})
+		work = append(work, pos{b: fn.Blocks[0]})
+	} else if start.Parent() == fn || curProg == nil {
+		work = append(work, pos{b: start.Block(), i: instrIndex(start) + 1})
 	} else {
-		work = append(work, pos{start.Block(), instrIndex(start) + 1})
+		// start lives in a helper: continue in the callers after the helper returns
+		pushed := false
+		for _, ch := range curProg.chains(start) {
+			top := len(ch.sites) - 1
+			if ch.fn(top) != fn {
+				continue
+			}
+			var rets []ssa.Instruction
+			for k := top; k >= 1; k-- {
+				rets = append(rets, ch.sites[k])
+			}
+			work = append(work, pos{b: start.Block(), i: instrIndex(start) + 1, rets: rets, stack: render(rets)})
+			pushed = true
+		}
+		if !pushed {
+			work = append(work, pos{b: start.Block(), i: instrIndex(start) + 1})
+		}
 	}
-	seenBlockStart := map[*ssa.BasicBlock]bool{}
+	seen := map[string]bool{}
 	for len(work) > 0 {
 		p := work[len(work)-1]
 		work = work[:len(work)-1]
-		blocked := false
+		stopped := false
 		for i := p.i; i < len(p.b.Instrs); i++ {
 			in := p.b.Instrs[i]
 			if target != nil && target(in) {
 				return in
 			}
 			if block != nil && block(in) {
-				blocked = true
+				stopped = true
+				break
+			}
+			if len(p.rets) < maxHelperDepth {
+				if h := curProg.helperCallee(in); h != nil && h != in.Parent() {
+					rec := false
+					for _, r := range p.rets {
+						if r.Parent() == h {
+							rec = true
+						}
+					}
+					if !rec {
+						rets := append(append([]ssa.Instruction{}, p.rets...), in)
+						k := render(rets) + "|" + h.Blocks[0].String()
+						if !seen[k] {
+							seen[k] = true
+							work = append(work, pos{b: h.Blocks[0], rets: rets, stack: render(rets)})
+						}
+						stopped = true // continuation happens at the helper's returns
+						break
+					}
+				}
+			}
+			if _, isRet := in.(*ssa.Return); isRet && len(p.rets) > 0 {
+				call := p.rets[len(p.rets)-1]
+				rets := p.rets[:len(p.rets)-1]
+				k := render(rets) + "|after:" + call.Block().String() + "/" + itoa(instrIndex(call))
+				if !seen[k] {
+					seen[k] = true
+					work = append(work, pos{b: call.Block(), i: instrIndex(call) + 1, rets: rets, stack: render(rets)})
+				}
+				stopped = true
 				break
 			}
 		}
-		if blocked {
+		if stopped {
 			continue
 		}
 		for _, s := range p.b.Succs {
-			if !seenBlockStart[s] {
-				seenBlockStart[s] = true
-				work = append(work, pos{s, 0})
+			k := p.stack + "|" + s.Parent().String() + ":" + s.String()
+			if !seen[k] {
+				seen[k] = true
+				work = append(work, pos{b: s, rets: p.rets, stack: p.stack})
 			}
 		}
 	}
@@ -277,6 +481,15 @@ func edgeDominates(from, to, b *ssa.BasicBlock) bool {
 
 // allInstrs calls f for every instruction of fn.
 func allInstrs(fn *ssa.Function, f func(ssa.Instruction)) {
+	if curProg != nil {
+		deepInstrs(fn, f)
+		return
+	}
+	ownInstrs(fn, f)
+}
+
+// ownInstrs calls f for the instructions of fn itself only.
+func ownInstrs(fn *ssa.Function, f func(ssa.Instruction)) {
 	for _, b := range fn.Blocks {
 		for _, in := range b.Instrs {
 			f(in)
